@@ -1,6 +1,7 @@
 mod bddops;
 mod gen;
 mod hist;
+mod ng;
 mod sem;
 mod util;
 
@@ -14,6 +15,7 @@ fn main() {
         "sem" => sem::main(&args[2..]),
         "bdd" => bddops::main(&args[2..]),
         "hist" => hist::main(&args[2..]),
+        "ng" => ng::main(&args[2..]),
         other => {
             eprintln!("unknown subcommand {}", other);
             std::process::exit(2);
